@@ -105,6 +105,9 @@ class FakeSolver:
         cd, nan = cond_tree(conds)
         starts = [enc_cs(c) for c in composition_sets]
         res = N(1, [cd, N(0, starts), L(1 if nan else 0)])
+        if cd[1] == 10 and cd[2][0][1] % 5 == 1 and len(composition_sets) >= 2:
+            # scripted loss of the precipitate: removed from the caller's list, in place, as pycalphad does
+            composition_sets[:] = [c for c in composition_sets if w.ph(c.phase_record.phase_name) == 0]
         for c in composition_sets:
             c.y = N(2, [cd, L(w.ph(c.phase_record.phase_name))])
         rid = w.id(res)
@@ -179,6 +182,20 @@ def fake_tracer(cs_matrix, *a, **k):
     return np.full(w.ncomp, w.id(t))
 
 
+def make_fake_curvature(th):
+    """stand-in for MulticomponentThermodynamics._curvatureFactorFromEq (stores and returns the outputs)"""
+    from kawin.thermo.MultiTherm import CurvatureOutput
+    def f(chemical_potentials, cs_matrix, cs_precip, precPhase):
+        w = W[0]
+        t = N(35, [w.tree(np.ravel(chemical_potentials)[0]), enc_cs(cs_matrix), enc_cs(cs_precip)])
+        i = w.id(t)
+        n = w.ncomp - 1
+        out = CurvatureOutput(dc=np.full(n, i), mc=i, gba=np.full((n, n), i), beta=i, c_eq_alpha=np.full(n, i), c_eq_beta=np.full(n, i))
+        th._curvature_outputs[precPhase] = out
+        return out
+    return f
+
+
 @contextlib.contextmanager
 def scripted(th):
     """install the fakes around the object under test"""
@@ -200,6 +217,8 @@ def scripted(th):
         patch(TM, 'inverseMobility_from_diffusivity', fake_inverse_mobility)
         patch(TM, 'tracer_diffusivity', fake_tracer)
         patch(TM, 'tracer_diffusivity_from_diff', fake_tracer)
+        if hasattr(th, '_curvature_outputs'):
+            th._curvatureFactorFromEq = make_fake_curvature(th)       # instance attribute, the class is untouched
         yield W[0]
     finally:
         for mod, name, val in reversed(saved):
@@ -222,7 +241,12 @@ def state_tree(th):
         if sp is not None and sp.samples is not None:
             pts.append(N(w.ph(name), [L(int(sp.temperature)), sp.samples.tree]))
     mat = [] if th._matrix_cs is None else [N(0, [enc_cs(c) for c in th._matrix_cs])]
-    return N(40, [N(41, assoc(th._compset_cache_df)), N(42, mat), N(43, sorted(pts)), N(44, assoc(th._diffusivity_cache))])
+    outs = []
+    for name, o in getattr(th, '_curvature_outputs', {}).items():
+        if o is not None and o.mc is not None:
+            outs.append(N(w.ph(name), [w.tree(o.mc)]))
+    return N(40, [N(41, assoc(th._compset_cache_df)), N(42, mat), N(43, sorted(pts)), N(44, assoc(th._diffusivity_cache)),
+                  N(45, assoc(getattr(th, '_compset_cache_curvature', {}))), N(46, sorted(outs))])
 
 
 def answer_tree(kind, r):
@@ -234,6 +258,8 @@ def answer_tree(kind, r):
         if dg.dtype == object or dg.ravel()[0] is None:
             return N(50)
         return ('DF', float(dg.ravel()[0]), float(np.asarray(xb, dtype=float).ravel()[0]))
+    if kind == 'CURV':
+        return N(54) if r is None else N(55, [w.tree(r.mc)])
     v = float(np.asarray(r, dtype=float).ravel()[0])
     return N(52, [w.tree(v)])
 
